@@ -27,11 +27,4 @@ Lists1x == Lists1 \cup UNION {{<<a, b, c>> : b \in {e \in Eps : e.h = a.h}, c \i
 C1 == {0}
 C3 == {0, 1, 7}
 C6 == 0..5
-\* The weighted cycle of every all-positive member list, computed once (TLC evaluates a constant
-\* definition once); CycleOf is overridden by a table lookup so that the state graph search does not
-\* recompute the builder on every transition.
-PosMembers == {m \in SeqsUpTo([h : Hosts, w : {w \in Weights : w > 0}], Cardinality(Hosts)) :
-                 \A i, j \in 1..Len(m) : m[i].h = m[j].h => i = j}
-CycleTable == [m \in PosMembers |-> IF m = <<>> THEN <<>> ELSE StaticWeightList(WeightsOf(m), OrdOf(m))]
-MCCycleOf(s, wt, m) == IF UsesCycle(s, wt, m) THEN CycleTable[m] ELSE <<>>
 ====
